@@ -99,6 +99,20 @@ func (x *Exec) enabled(t *Thread) bool {
 				return false
 			}
 		}
+		// with constant due times only an earliest armed timer can fire next
+		var me *timerObj
+		for _, tm := range x.timers {
+			if tm.th == t {
+				me = tm
+			}
+		}
+		if me != nil && me.due.IsConst() {
+			for _, tm := range x.timers {
+				if tm != me && tm.armed && tm.due.IsConst() && tm.due.SVal() < me.due.SVal() {
+					return false
+				}
+			}
+		}
 	}
 	if t.blocked != nil {
 		if t.blocked() {
